@@ -10,7 +10,8 @@ PROP = dict(
               "C08_fault_shape", "C08_no_loss_under_faults", "C08_no_loss_under_faults_file",
               "C08_removed_only_after_copied", "C08_reported_at_most_once_under_faults",
               "C08_one_collection_under_faults", "C08_injected_error_propagates", "C08_failed_read_propagates", "C08_dead_does_nothing",
-              "C08_faultfree_is_base", "C08_faultfree_is_base_bytes"],
+              "C08_faultfree_is_base", "C08_faultfree_is_base_bytes",
+              "C08_bytes_refine_under_faults", "C08_files_parse_under_faults"],
     suites=["results"],
     level_text="Machine-checked Lean theorems, by induction over arbitrary operation lists (every interleaving of any "
                "number of appending runners, batches, rows and collecting/cancelling submitter rounds, unbounded), at "
@@ -30,8 +31,8 @@ PROP = dict(
                "marker breaking on a distributed filesystem (the model breaks exactly the markers of dead processes); torn "
                "writes (a failure or death in the middle of a write larger than the io buffer); failures and kills of "
                "appending runners and of cancellations (only collections are faulted); under faults the byte-level "
-               "model is tied to the row-level theorems by the correspondence only (the refinement theorem covers "
-               "fault-free histories); clear_results_for_resubmission / clear_unsuccessful_results (rewrite the "
+               "refinement theorem covers histories that start with the consolidated file created (a 0-byte file left "
+               "by a failed write when it did not exist is tied by the correspondence only); clear_results_for_resubmission / clear_unsuccessful_results (rewrite the "
                "consolidated file without the lock: C13). Under faults exactly-once does NOT hold on the unchanged "
                "code and is not claimed: a death between copy and removal or a failed os.remove duplicates the rows "
                "of that one file, and an aborted round reports nothing (rows it had moved are reported to no round).",
